@@ -99,6 +99,15 @@ class View:
                 out.append((bb, norm(M.render(positional(self.pv.of_place(pl), self.env))), self.form(self.pv.of_rvalue(st["rv"]))))
         return out
 
+    def guards(self, bb):
+        """Comparison atoms dominating bb as (op, linear form of lhs, linear form of rhs)."""
+        out = []
+        for a in C.conditions(self.prog, self.f, bb):
+            if a.kind == "cmp":
+                op, l, r = a.terms
+                out.append((op, self.form(l), self.form(r)))
+        return out
+
     def rooted_at(self, t, rx):
         """The call matching rx that the value `t` is read out of (through ?, copied, ok_or, deref)."""
         t = M.peel(t)
@@ -197,6 +206,8 @@ def check(ctx, rid):
         bb, t = v.one(r"Vec::resize$")
         got = [v.arg(t, 1), v.arg(t, 2)] if t else []
         ob("Reserve:new-length-and-fill", got == ["%s + pop($1)" % LEN, "0"], v.f, "resize(%s); spec: `len` zeroed words appended" % got)
+        g = v.guards(bb) if bb is not None else []
+        ob("Reserve:fails-when-the-new-length-exceeds-the-limit", ("Le", "%s + pop($1)" % LEN, "4096") in g, v.f, "resize under %s" % g)
         pb, pt = v.one(r"Stack::push$")
         ob("Reserve:returns-start", pt is not None and v.arg(pt, 1) == LEN, v.f, "pushes %s; spec: the index to the start of the reserved space" % (v.arg(pt, 1) if pt else None))
         lens = [b_ for b_, t_ in v.calls(LENS) if v.arg(t_, 0) == "$1"]
@@ -325,6 +336,8 @@ def check(ctx, rid):
         bb, t = v.one(r"Vec::resize$")
         got = [v.arg(t, 1), v.arg(t, 2)] if t else []
         ob("Alloc:new-length-and-fill", got == ["$2 + %s" % LEN, "0"], v.f, "resize(%s); spec: a new zeroed block of `size` words at the end" % got)
+        g = v.guards(bb) if bb is not None else []
+        ob("Alloc:fails-when-the-new-length-exceeds-the-limit", ("Le", "$2 + %s" % LEN, "10240") in g, v.f, "resize under %s; the bound is on the resulting length (len + size <= SIZE_LIMIT), not on the request" % g)
     v = view(Mm + "store")
     if v:
         bb, t = v.one(ELEM)
@@ -343,12 +356,16 @@ def check(ctx, rid):
         got = v.arg(t, 1) if t else "?"
         cb, ct = v.one(r"slice::<impl \[T\]>::(copy_from_slice|clone_from_slice)$")
         ob("StoreRange:range", got == "Range[$2, $2 + slice::len($3)]", v.f, "writes %s; spec: a range of words starting at the index" % got)
+        g = v.guards(bb) if bb is not None else []
+        ob("StoreRange:fails-when-the-range-ends-past-the-length", ("Le", "$2 + slice::len($3)", LEN) in g, v.f, "range write under %s" % g)
         ob("StoreRange:source", ct is not None and v.arg(ct, 1) == "$3" and v.rooted_at(v.term(ct, 0), r"index_mut$") is not None, v.f, "copy_from_slice(range, parameter 3)")
     v = view(Mm + "load_range")
     if v:
         bb, t = v.one(r"ops::Index<I>>::index$")
         got = v.arg(t, 1) if t else "?"
         ob("LoadRange:range", got == "Range[$2, $2 + $3]", v.f, "reads %s; spec: a range of `len` words starting at the index" % got)
+        g = v.guards(bb) if bb is not None else []
+        ob("LoadRange:fails-when-the-range-ends-past-the-length", ("Le", "$2 + $3", LEN) in g, v.f, "range read under %s" % g)
         oks = [a for a in _alts(v.pv.of_local(0)) if a.kind == "aggr" and str(a.a).endswith("Result::Ok")]
         ob("LoadRange:returns-the-range", len(oks) == 1 and v.rooted_at(_through_to_vec(positional(oks[0].sub[0])), r"ops::Index<I>>::index$") is not None, v.f, "Ok(range.to_vec())")
     v = view(Mm + "free")
@@ -356,6 +373,8 @@ def check(ctx, rid):
         bb, t = v.one(r"Vec::truncate$")
         got = v.arg(t, 1) if t else "?"
         ob("Free:new-length", got == "$2", v.f, "truncate(%s); spec: truncate memory to the specified new length" % got)
+        g = v.guards(bb) if bb is not None else []
+        ob("Free:fails-when-the-new-length-exceeds-the-length", ("Le", "$2", LEN) in g, v.f, "truncate under %s" % g)
 
     # ---- wiring in step_op_memory -----------------------------------------------
     som = prog.fn("essential_vm::sync::step_op_memory")
@@ -397,7 +416,7 @@ def check(ctx, rid):
         pops = v.calls(r"stack::Stack::pop$")
         ob("StoreRange:index-popped-before-the-words", len(plw) == 1 and any(v.dominates(pb_, plw[0][0]) for pb_, _ in pops), som,
            "a pop dominates pop_len_words")
-    ctx.floor(rid, "addressed-position obligations", n[0], 57)
+    ctx.floor(rid, "addressed-position obligations", n[0], 62)
 
 
 def _alts(t):
